@@ -25,6 +25,10 @@ CHECKS = {
    text="TLA+ spec StreamXfer: API-level contract (bytes read are a prefix of bytes written, EOF only after all, datagrams intact and at most once, completion at quiescence) with a network refinement StreamXfer_Net (loss / duplication / reordering / retransmission) model-checked by TLC for safety and completion under fairness; TLC enumerates every schedule of <=1 (<=2) faults among the first datagrams of either direction (NetFaults) plus blackout / reordering / random-loss lattices; each schedule runs a scripted multi-stream transfer between a real client (plain or fingerprint spec, v1/v2) and the in-tree server over simnet in a synctest bubble; the recorded API trace is validated by TLC.",
    note="Trusted: TLC, go1.26 synctest + testutils/simnet (virtual time), harness content check. Observation is at the two APIs only. Completion is required because the enumerated faults never keep the path dead for longer than the idle timeout.",
    technique="TLA+ model checking (TLC, safety + liveness) + TLC-enumerated fault schedules replayed into real connections + TLC trace validation"),
+ "C02": dict(engine="Handshake", design="5 C02",
+   text="TLA+ spec Handshake (client reconstructed from its Initial packets on the wire: version / connection-ID / Retry / Version-Negotiation rules; outcome from Dial / Accept; ISCID transport parameter = header SCID) model-checked by TLC with a lossy network and a packet-forging attacker; TLC enumerates fault schedules on the first flights; for every built-in QUICID, 11 derived specs, UTransport without spec and plain Transport x 4 server configurations, three successive dials through one spec value run against the in-tree server over simnet; client Initials are decrypted by an independent observer; wire + API traces are validated by TLC in collect mode (every failing execution is classified).",
+   note="Trusted: TLC, independent Initial-packet observer, go1.26 synctest + simnet. 4 open known findings (spec value is mutated by a dial: key shares / initial_source_connection_id reused), so redials of spec clients are known to fail; first dials and plain / nil-spec clients must succeed under every schedule.",
+   technique="TLA+ model checking (TLC) + TLC-enumerated fault schedules replayed into real connections + TLC trace validation of wire and API events"),
 }
 NA = {}
 
